@@ -27,7 +27,7 @@ EXPLANATION = ('For each operator (all float parameters symbolic) z3 decides (i)
 FUNCTIONS = ['AbstractLinearOperator.as_matrix', 'AdditionOperator.as_matrix', 'IdentityOperator.as_matrix', 'HomothetyOperator.as_matrix', 'DiagonalOperator.as_matrix',
              'BlockRow/BlockDiagonal/BlockColumnOperator.as_matrix', 'AbstractRavelOrReshapeOperator.as_matrix', 'SymmetricBandToeplitzOperator.as_matrix', 'every mv']
 BOUNDS = {'quick': 'every catalogue leaf of 4 families (in_size <= 12) + leaf.T + closed-form leaf.I + seeded 120 composites (products, sums, blocks)',
-          'thorough': 'same + 600 composites'}
+          'thorough': 'same + up to 4 000 composites per family (all with in_size <= 14)'}
 STUBS = ['as_matrix() of the lazy inverse (jnp.linalg.inv -> LU primitives) is not encodable: not claimed']
 ASSUMPTIONS = ['real arithmetic', 'inverted scalars != 0']
 RULE = 'case = operator expression; non-trivial = symbolic parameters or structure-changing operator; distinct keys'
@@ -44,7 +44,7 @@ def cases(tier, seed):
         progs = list(base) + [('T', b) for b in base] + [('I', ('leaf', n, 0)) for n in CLOSED_INV[fam]]
         comp = [e for e in c01.gen_programs(fam, 'quick', seed) if not _has_lazy(fam, e)]
         rnd.shuffle(comp)
-        progs += comp[: (150 if tier == 'thorough' else 30)]
+        progs += (c01.gen_programs(fam, 'thorough', seed)[:4000] if tier == 'thorough' else comp[:30])
         out += [(fam, e) for e in progs]
     return out
 
